@@ -36,6 +36,18 @@ pub struct ContextHandle {
 }
 
 impl ContextHandle {
+    // Allocates the next packet identifier. The shared counter wraps around after 65535
+    // allocations and zero is not a valid identifier, so it is skipped; every attempt is a
+    // single atomic read-modify-write, which keeps identifiers handed out concurrently distinct.
+    fn next_packet_id(&self) -> u16 {
+        loop {
+            let id = self.packet_id.fetch_add(1, Ordering::Relaxed);
+            if id != 0 {
+                return id;
+            }
+        }
+    }
+
     /// Verification hook: presets the shared packet identifier and subscription identifier
     /// counters, so that short runs can start next to the wrap-around.
     ///
@@ -122,7 +134,7 @@ impl ContextHandle {
             }
             QoS::AtLeastOnce => {
                 let packet = opts
-                    .packet_identifier(self.packet_id.fetch_add(1, Ordering::Relaxed))
+                    .packet_identifier(self.next_packet_id())
                     .build()?;
 
                 let mut buf = BytesMut::with_capacity(packet.packet_len());
@@ -154,7 +166,7 @@ impl ContextHandle {
             }
             QoS::ExactlyOnce => {
                 let packet = opts
-                    .packet_identifier(self.packet_id.fetch_add(1, Ordering::Relaxed))
+                    .packet_identifier(self.next_packet_id())
                     .build()?;
 
                 let mut buf = BytesMut::with_capacity(packet.packet_len());
@@ -239,7 +251,7 @@ impl ContextHandle {
         let (str_sender, str_receiver) = mpsc::unbounded();
 
         let packet = opts
-            .packet_identifier(self.packet_id.fetch_add(1, Ordering::Relaxed))
+            .packet_identifier(self.next_packet_id())
             .subscription_identifier(self.sub_id.fetch_add(1, Ordering::Relaxed))
             .build()?;
 
@@ -282,7 +294,7 @@ impl ContextHandle {
         let (sender, receiver) = oneshot::channel();
 
         let packet = opts
-            .packet_identifier(self.packet_id.fetch_add(1, Ordering::Relaxed))
+            .packet_identifier(self.next_packet_id())
             .build()?;
 
         let mut buf = BytesMut::with_capacity(packet.packet_len());
